@@ -288,6 +288,62 @@ fn ec_one(path: &[(autosar_data::ElementName, autosar_data_specification::Elemen
             (Err(_), false) => { if after != before { return Err(format!("a refused create_copied_sub_element_at({}) changed the children", n)); } }
         }
     }
+    // move a child to another position inside the element, and a child of a sibling copy into the element
+    {
+        let kids_now: Vec<Element> = cur.sub_elements().collect();
+        let movable: Vec<&Element> = kids_now.iter().filter(|c| c.element_name() != ElementName::ShortName).collect();
+        if !movable.is_empty() {
+            let c = movable[rng.below(movable.len())];
+            let n = c.element_name();
+            let range = cur.calc_element_insert_range(n, v);
+            let (lo, hi) = match &range { Ok((a, b)) => (*a, *b), Err(_) => (0, kids_now.len()) };
+            let choices = [lo, hi, if lo > 0 { lo - 1 } else { hi + 1 }, hi + 1, usize::MAX];
+            let p = choices[rng.below(choices.len())];
+            let before: Vec<ElementName> = cur.sub_elements().map(|e| e.element_name()).collect();
+            let r = cur.move_element_here_at(c, p);
+            stats[2] += 1;
+            let after: Vec<ElementName> = cur.sub_elements().map(|e| e.element_name()).collect();
+            // the moved element occupies one position of its own range: final positions lo ..= hi-1
+            let expect_ok = range.is_ok() && lo <= p && p < hi;
+            match (&r, expect_ok) {
+                (Ok(_), false) => return Err(format!("move_element_here_at({}, {}) inside its parent succeeded although the reported range is {:?} and the parent has {} children [parent {} children {:?}]", n, p, range.as_ref().ok(), before.len(), cur.element_name(), before)),
+                (Err(e), true) => return Err(format!("move_element_here_at({}, {}) inside its parent, inside the reported range {}..={}, failed: {} [parent {} children {:?}]", n, p, lo, hi, e, cur.element_name(), before)),
+                (Ok(m), true) => {
+                    if after.len() != before.len() || m.position() != Some(p) { return Err(format!("after move_element_here_at({}, {}) inside its parent the element is at {:?} and the parent has {} children (had {})", n, p, m.position(), after.len(), before.len())); }
+                    let mut kids: Vec<Vec<usize>> = Vec::new();
+                    for se in cur.sub_elements() { if let Some((_, idx)) = t.find_sub_element(se.element_name(), vm) { kids.push(idx); } }
+                    if !ec_conform(t, &kids) { return Err(format!("after move_element_here_at({}, {}) inside its parent the children are not in specification order: {:?}", n, p, after)); }
+                }
+                (Err(_), false) => { if after != before { return Err(format!("a refused move_element_here_at({}) changed the children", n)); } }
+            }
+        }
+        // a sibling copy of the element (same file, same version) donates one of its children
+        if let (Ok(Some(parent)), true) = (cur.parent(), rng.below(2) == 0) {
+            if let Ok(sib) = parent.create_copied_sub_element(&cur) {
+                let donors: Vec<Element> = sib.sub_elements().filter(|c| c.element_name() != ElementName::ShortName).collect();
+                if !donors.is_empty() {
+                    let c = &donors[rng.below(donors.len())];
+                    let n = c.element_name();
+                    let range = cur.calc_element_insert_range(n, v);
+                    let before: Vec<ElementName> = cur.sub_elements().map(|e| e.element_name()).collect();
+                    let (lo, hi) = match &range { Ok((a, b)) => (*a, *b), Err(_) => (0, before.len()) };
+                    let choices = [lo, hi, if lo > 0 { lo - 1 } else { hi + 1 }, hi + 1, usize::MAX];
+                    let p = choices[rng.below(choices.len())];
+                    let r = cur.move_element_here_at(c, p);
+                    stats[2] += 1;
+                    let after: Vec<ElementName> = cur.sub_elements().map(|e| e.element_name()).collect();
+                    let expect_ok = range.is_ok() && lo <= p && p <= hi;
+                    match (&r, expect_ok) {
+                        (Ok(_), false) => return Err(format!("move_element_here_at({}, {}) from a sibling succeeded although the reported range is {:?} [parent {} children {:?}]", n, p, range.as_ref().ok(), cur.element_name(), before)),
+                        (Err(e), true) => return Err(format!("move_element_here_at({}, {}) from a sibling, inside the reported range {}..={}, failed: {} [parent {} children {:?}]", n, p, lo, hi, e, cur.element_name(), before)),
+                        (Ok(_), true) => { let mut want = before.clone(); want.insert(p, n); if after != want { return Err(format!("after move_element_here_at({}, {}) from a sibling the children are {:?}, expected {:?}", n, p, after, want)); } }
+                        (Err(_), false) => { if after != before { return Err(format!("a refused move_element_here_at({}) from a sibling changed the children", n)); } }
+                    }
+                }
+                let _ = parent.remove_sub_element(sib);
+            }
+        }
+    }
     // copy the whole element into a file of another version: whatever arrives must be permitted there
     if path.len() >= 2 && rng.below(3) == 0 {
         let others = autosar_data_specification::expand_version_mask(u32::MAX);
